@@ -213,6 +213,7 @@ func main() {
 		{"covert_allowlist_subnets", listVals(`"93.184.0.0/16"`, `"2606:2800::/129"`)},
 		{"covert_blocklist_domains", []string{"", "[]", `["localhost"]`, `["localhost", "("]`, `["("]`, `["^intra\\.corp$"]`}},
 		{"phantom_blocklist", listVals(`"192.122.190.0/25"`, `"not-a-cidr"`)},
+		{"covert_blocklist_public_addrs", []string{"", "true", "false"}},
 	}
 	miscKeys := []kv{
 		{"geoip_cc_db_path", []string{"", `"` + filepath.Join(dir, "missing.mmdb") + `"`, `"` + garbage + `"`}},
@@ -236,11 +237,12 @@ func main() {
 	// reload material
 	otherConf := writeFile("other.toml", "enable_v6 = true\ncovert_blocklist_subnets = [\"172.16.0.0/12\", \"::1/128\"]\ncovert_blocklist_domains = [\"^intra\\\\.corp$\"]\nphantom_blocklist = [\"198.18.0.0/16\"]\n")
 	malConf := writeFile("malformed.toml", "enable_v6 = true\ncovert_blocklist_subnets = [\"10.0.0.0/8\", \"192.168.0.0\"]\ncovert_blocklist_domains = [\"(\"]\n")
+	malConf2 := writeFile("malformed2.toml", "enable_v6 = true\ncovert_blocklist_public_addrs = true\ncovert_blocklist_subnets = [\"172.16.0.0/12\"]\nphantom_blocklist = [\"198.18.0.0/33\"]\n")
 	synConf := writeFile("syntax.toml", "enable_v6 = [true\n")
 	goneConf := filepath.Join(dir, "no-such-config.toml")
 	type reloadStep struct{ name, conf, subnets string }
 	var steps []reloadStep
-	for _, c := range [][2]string{{"conf-valid", otherConf}, {"conf-malformed", malConf}, {"conf-syntax", synConf}, {"conf-unreadable", goneConf}} {
+	for _, c := range [][2]string{{"conf-valid", otherConf}, {"conf-malformed", malConf}, {"conf-malformed-pubaddrs", malConf2}, {"conf-syntax", synConf}, {"conf-unreadable", goneConf}} {
 		for _, s := range [][2]string{{"subnets-valid", sb}, {"subnets-malformed", sMal}, {"subnets-unreadable", sGone}} {
 			steps = append(steps, reloadStep{c[0] + "+" + s[0], c[1], s[1]})
 		}
